@@ -726,20 +726,25 @@ class Session:
             if len(P) == 1:
                 fp = (hash(tuple(m["full"])), w, h, bw, focus)
                 tab = self.memo.setdefault(fp, {})
-                for p2, (top2, stale2) in tab.items():
+                # the mode THIS frame was drawn in; the same rows can be drawn in either mode (zero-row items count for
+                # len(body) but not for the rows), and a pair is attributed to relative mode if either frame used it
+                rel = self.kind == "LB" and bool(self.lb.require_relative_scroll((w, h), focus))
+                for p2, (top2, stale2, rel2) in tab.items():
                     if p2 != p:
                         self.c("clause_monotone_pairs")
                         if (p2 < p and top2 > top) or (p2 > p and top2 < top):
                             why = "|bar-cached-across-off-screen-content-change" if (stale or stale2) else ""
                             if self.kind == "LB" and not why:
-                                why = "|relative-mode" if self.lb.require_relative_scroll((w, h), focus) else "|row-mode"
+                                if rel != rel2:
+                                    self.c("monotone_pair_across_relative_and_row_mode")
+                                why = "|relative-mode" if (rel or rel2) else "|row-mode"
                             self.viol(
                                 f"C20|{self.topname}|thumb-not-monotone{why}",
                                 f"same content/size: p={p2} -> top={top2}, p={p} -> top={top} (h={h}, total={total})",
                             )
                     elif top2 != top:
                         self.c("same_p_different_top")
-                tab[p] = (top, stale)
+                tab[p] = (top, stale, rel)
         self.last_tp = (total, p)
         return {"P": P, "total": total, "cursor": m["cursor"], "fp": (hash(tuple(m["full"])), w, h, bw), "drawn": drawn}
 
